@@ -189,6 +189,13 @@ def bad_history(rng, kind, ncalls=20, small=False, **over):
                     s[k] = [c, s[k][1] if rng.random() < 0.5 else rng.choice([1, 2, -1])]
             b = {"op": "bad", "id": 0, "via": rng.choice(["into", "slices", "vec_into"])}
             b.update(s)
+            if ch > 1 and "mask_len" not in b and rng.random() < 0.5:
+                # a well-formed mask with inactive channels on a call that is rejected for another reason
+                m = [rng.random() < 0.5 for _ in range(ch)]
+                for k in ("short_in", "short_out"):
+                    if k in b:
+                        m[b[k][0]] = True
+                b["mask"] = m
             out.append(b)
     return out
 
@@ -327,4 +334,29 @@ def impulse_history(rng, kind):
     per_in = n["chunk"] if kind.endswith("In") else max(1, int(n["chunk"] / float(r)))
     for _ in range(min(200, (pos + 3 * n["L"] + 200) // per_in + 3)):
         ops.append({"op": "process", "id": 0})
+    return ops
+
+
+def preset_ratio_history(rng, kind, ncalls=12, **over):
+    """A stream that runs at a constant ratio different from the constructor's: the ratio is set
+    (absolute, not ramped) before the first frame is processed, or right after a reset."""
+    h = valid_history(rng, kind, ncalls, allow=("chunk",), **over)
+    n = h[0]
+    orig = frac_of(n["r"])
+    maxrel = frac_of(n["maxrel"])
+    if maxrel == 1:
+        n["maxrel"] = rj(Fraction(rng.choice([2, 4, 10, 16])))
+        maxrel = frac_of(n["maxrel"])
+    rels = [x for x in in_range_rels(maxrel) if x != 1]
+    x = orig * rng.choice(rels)
+    # extremes matter: the lowest / highest allowed ratio
+    if rng.random() < 0.4:
+        x = orig / maxrel if rng.random() < 0.5 else orig * maxrel
+    if x.numerator >= 1024 or x.denominator >= 1024:
+        x = orig * Fraction(1, 2) if Fraction(1, 2) >= 1 / maxrel else orig
+    setop = {"op": "set_ratio", "id": 0, "x": rj(x), "ramp": False, "rel": False}
+    ops = [n, setop] + h[1:]
+    if rng.random() < 0.3:
+        k = rng.randrange(2, len(ops))
+        ops[k:k] = [{"op": "reset", "id": 0}, dict(setop)]
     return ops
